@@ -22,7 +22,7 @@ LEVEL = (
 )
 ASSUME = [
     "all nodes referenced by the harness, cyclic collector off (text segmentation of unreferenced clones is C04's allowance)",
-    "documents without attributes under a default namespace (C11 finding: such attributes break after re-parenting)",
+    "attribute-bearing documents are not under a default namespace (C11 finding: such attributes break after re-parenting)",
 ]
 
 
@@ -157,6 +157,17 @@ def run_one(run: Run, stream, xml, seed_ops, length, rows):
         gc.enable()
 
 
+# attribute-bearing documents: attributes in no namespace and in prefixed namespaces on elements in no namespace and in
+# prefixed namespaces (not under a default namespace, see the assumptions)
+DOCS_ATTR = [
+    '<r a="1" b="2"><a id="x">t<b n="1" m=""/>u</a><!--c--><c k="v w"/></r>',
+    '<p:r xmlns:p="urn:p" xmlns:q="urn:q" n="0"><p:item n="1" q:ref="r">text<!--c--><plain n="2" p:n="3"/>tail</p:item></p:r>',
+    '<r xmlns:q="urn:q" q:a="1" a="2"><q:e q:a="3" a="4"><e xml:lang="en" a="5"/></q:e>x</r>',
+    '<p:r xmlns:p="urn:p"><p:a p:k="1" k="2"><p:b k="3"/></p:a>y<c xmlns:z="urn:z" z:k="4"/></p:r>',
+]
+DOCS = E.DOCS + DOCS_ATTR
+
+
 def document_clone(run: Run, stream):
     """Document.clone reproduces prologue and epilogue"""
     from delb import Document
@@ -164,7 +175,7 @@ def document_clone(run: Run, stream):
     rng = run.rng
     pro = [rng.choice(["<!--a-->", "<?p x?>", "<!-- b -->", "<?q?>"]) for _ in range(rng.randint(0, 3))]
     epi = [rng.choice(["<!--z-->", "<?e y?>", "<!---->"]) for _ in range(rng.randint(0, 3))]
-    xml = "".join(pro) + rng.choice(E.DOCS) + "".join(epi)
+    xml = "".join(pro) + rng.choice(DOCS) + "".join(epi)
     case = {"xml": xml, "document_clone": True}
     run.case(stream, case, bool(pro or epi))
     d = Document(xml)
@@ -207,7 +218,7 @@ def check(run: Run, lean: dict) -> int:
     ok = lean.get("driver_ok", True) and lean.get("clone_cmd", True)
     rows = []
     for _ in range(n):
-        run_one(run, "generated", run.rng.choice(E.DOCS), None, run.rng.randint(0, 10), rows)
+        run_one(run, "generated", run.rng.choice(DOCS), None, run.rng.randint(0, 10), rows)
     for _ in range(n // 3):
         document_clone(run, "document")
     if ok:
@@ -218,7 +229,7 @@ def check(run: Run, lean: dict) -> int:
 def search(run: Run):
     probe = Run(run.prop, run.tier, run.seed)
     for _ in range(1500):
-        run_one(probe, "search", probe.rng.choice(E.DOCS), None, probe.rng.randint(0, 12), [])
+        run_one(probe, "search", probe.rng.choice(DOCS), None, probe.rng.randint(0, 12), [])
         document_clone(probe, "search")
         if probe.violations:
             return [probe.violations[0]]
@@ -229,5 +240,5 @@ def replay(payload: dict) -> int:
     print(json.dumps(payload.get("failing", [])[:1], ensure_ascii=False)[:2000])
     probe = Run("C10", "quick", payload.get("seed", 0))
     for _ in range(300):
-        run_one(probe, "replay", probe.rng.choice(E.DOCS), None, probe.rng.randint(0, 10), [])
+        run_one(probe, "replay", probe.rng.choice(DOCS), None, probe.rng.randint(0, 10), [])
     return 1 if probe.violations else 0
